@@ -602,7 +602,187 @@ def rule_offer(ctx):
                   "%s is no longer carried into the ClientHello by %s" % (setting, cls), fi.loc())
 
 
+def _loads(node):
+    return {x.id for x in ast.walk(node) if isinstance(x, ast.Name) and isinstance(x.ctx, (ast.Load, ast.Del))}
+
+
+def rule_select(ctx):
+    """what the settings enable is what the server selects from: each group intersection is computed
+    against the list derived from the matching setting (reaching definitions), and no value derived
+    from the settings is stored and then dropped (computed but never used)."""
+    from ..flow import reaching_defs
+    from ..query import assigns, call_name
+    R = "C19.SELECT"
+    fi = ctx.index.func("tlsconnection:TLSConnection._serverGetClientHello")
+    g = ctx.an.cfg(fi)
+    want = {"ecGroupIntersect": ("_curveNamesToList", "eccCurves"), "ffGroupIntersect": ("_groupNamesToList", "dhGroups")}
+    found = 0
+    for n in g.nodes:
+        if n.kind != "stmt" or not isinstance(n.ast, ast.Assign) or not isinstance(n.ast.value, ast.Call) \
+                or call_name(n.ast.value) != "getFirstMatching":
+            continue
+        tgt = norm(n.ast.targets[0])
+        if tgt not in want:
+            continue
+        found += 1
+        helper, setting = want[tgt]
+        args = n.ast.value.args
+        ok = len(args) == 2
+        srcs = []
+        if ok:
+            if isinstance(args[1], ast.Name):
+                ds = reaching_defs(g, n, args[1].id)
+                srcs = [norm(d.ast.value) if d.ast is not None and isinstance(d.ast, ast.Assign) else "?" for d in ds]
+                ok = bool(ds) and all(isinstance(d.ast, ast.Assign) and isinstance(d.ast.value, ast.Call)
+                                      and call_name(d.ast.value) == helper and d.ast.value.args
+                                      and norm(d.ast.value.args[0]) == "settings" for d in ds)
+            else:
+                srcs = [norm(args[1])]
+                ok = isinstance(args[1], ast.Call) and call_name(args[1]) == helper and args[1].args \
+                    and norm(args[1].args[0]) == "settings"
+        ctx.check(R, ok, fi.qname, "%s computed against %s(settings)" % (tgt, helper),
+                  "`%s` must intersect the client's groups with the list built from settings.%s, but its second "
+                  "operand comes from %s: groups the settings enable are ignored (or disabled ones honoured)"
+                  % (norm(n.ast), setting, ", ".join(srcs) or "nothing"), fi.loc(n.ast))
+    ctx.require(found >= 2, "C19.SELECT: server group intersections not found in _serverGetClientHello")
+    # settings-derived locals are used
+    checked = 0
+    for f in ctx.index.all_functions():
+        if f.module.name not in ("tlsconnection", "tlsrecordlayer", "keyexchange", "handshakehelpers"):
+            continue
+        if "settings" not in {a.arg for a in f.node.args.args}:
+            continue
+        gg = ctx.an.cfg(f)
+        nested = set()
+        for x in ast.walk(f.node):
+            if x is not f.node and isinstance(x, (ast.FunctionDef, ast.Lambda)):
+                nested |= _loads(x)
+        use = {}
+        for m in gg.nodes:
+            u = set()
+            for a in (m.ast if m.kind != "test" else None, m.expr, getattr(m, "call", None)):
+                if isinstance(a, ast.AST) and not isinstance(a, (ast.If, ast.While, ast.For, ast.Try, ast.With)):
+                    u |= _loads(a)
+            use[m.id] = u
+        for m in gg.nodes:
+            if m.kind != "stmt" or not isinstance(m.ast, ast.Assign) or "settings" not in _loads(m.ast.value):
+                continue
+            for t in m.ast.targets:
+                if not isinstance(t, ast.Name) or t.id.startswith("_") or t.id in nested:
+                    continue
+                checked += 1
+                v = t.id
+                st = [k for k, l in m.succ]
+                vis = set()
+                used = False
+                while st and not used:
+                    k = st.pop()
+                    if k.id in vis:
+                        continue
+                    vis.add(k.id)
+                    if v in use[k.id]:
+                        used = True
+                    elif not assigns(k, v):
+                        st += [j for j, l in k.succ]
+                ctx.check(R, used, f.qname, "`%s` (derived from the settings) is used" % norm(m.ast)[:60],
+                          "`%s` computes a value from the settings that is never read afterwards: the code that "
+                          "follows works on something else than what the settings say" % norm(m.ast)[:80],
+                          f.loc(m.ast), what="%s %s@%s" % (f.short, v, norm(m.ast.value)[:40]))
+    ctx.require(checked >= 40, "C19.SELECT: %d settings-derived locals examined, floor 40" % checked)
+
+
+def rule_ranges(ctx):
+    """RANGES: the scalar settings are refused exactly outside their domains.  Each sanity-check
+    function is evaluated (its tests only; nothing is run) over boundary values of the fields one row
+    names, all unrelated checks assumed to pass: it must end in ValueError exactly when the row's
+    specification says the value is outside the domain."""
+    import itertools
+    from ..condeval import outcomes
+    from .common import dead_edge_labels
+    R = "C19.RANGES"
+    O = "other."
+    V = [(2, 0), (3, 0), (3, 1), (3, 3), (3, 4), (3, 5)]
+    KNOWN = [(3, 0), (3, 1), (3, 2), (3, 3), (3, 4)]
+    week = 7 * 24 * 60 * 60
+    T = [
+        ("_sanityCheckKeySizes", {O + "minKeySize": [0, 511, 512, 1023, 2048, 16384, 16385],
+                                  O + "maxKeySize": [0, 511, 512, 1023, 2048, 16384, 16385]},
+         lambda e: not (512 <= e[O + "minKeySize"] <= 16384) or not (512 <= e[O + "maxKeySize"] <= 16384)
+         or e[O + "maxKeySize"] < e[O + "minKeySize"],
+         "minKeySize and maxKeySize within 512..16384 and minKeySize <= maxKeySize"),
+        ("_sanityCheckProtocolVersions", {O + "minVersion": V, O + "maxVersion": V, "KNOWN_VERSIONS": [tuple(KNOWN)]},
+         lambda e: e[O + "minVersion"] > e[O + "maxVersion"] or e[O + "minVersion"] not in KNOWN
+         or e[O + "maxVersion"] not in KNOWN,
+         "minVersion <= maxVersion, both known protocol versions"),
+        ("_sanityCheckEMSExtension", {O + "useExtendedMasterSecret": [True, False, None, 2],
+                                      O + "requireExtendedMasterSecret": [True, False, None, 2]},
+         lambda e: e[O + "useExtendedMasterSecret"] not in (True, False)
+         or e[O + "requireExtendedMasterSecret"] not in (True, False)
+         or (e[O + "requireExtendedMasterSecret"] and not e[O + "useExtendedMasterSecret"]),
+         "EMS flags boolean, require implies use"),
+        ("_sanityCheckExtensions", {O + "record_size_limit": [None, 0, 63, 64, 65, 2 ** 14, 2 ** 14 + 1, 2 ** 14 + 2]},
+         lambda e: e[O + "record_size_limit"] is not None and not (64 <= e[O + "record_size_limit"] <= 2 ** 14 + 1),
+         "record_size_limit None or within 64..2**14+1"),
+        ("_sanityCheckExtensions", {O + "dc_valid_time": [0, 1, week - 1, week, week + 1], "DC_VALID_TIME": [week]},
+         lambda e: e[O + "dc_valid_time"] > week, "dc_valid_time at most 7 days"),
+        ("_sanityCheckExtensions", {O + "useEncryptThenMAC": [True, False, None, 2]},
+         lambda e: e[O + "useEncryptThenMAC"] not in (True, False), "useEncryptThenMAC boolean"),
+        ("_sanityCheckExtensions", {O + "usePaddingExtension": [True, False, None, 2]},
+         lambda e: e[O + "usePaddingExtension"] not in (True, False), "usePaddingExtension boolean"),
+        ("_sanityCheckExtensions", {O + "use_heartbeat_extension": [True, False, None, 2],
+                                    O + "heartbeat_response_callback": [None]},
+         lambda e: e[O + "use_heartbeat_extension"] not in (True, False), "use_heartbeat_extension boolean"),
+        ("_sanityCheckExtensions", {O + "use_heartbeat_extension": [True, False],
+                                    O + "heartbeat_response_callback": [None, "cb"]},
+         lambda e: bool(e[O + "heartbeat_response_callback"]) and not e[O + "use_heartbeat_extension"],
+         "a heartbeat callback requires the heartbeat extension"),
+        ("_sanityCheckTicketSettings", {O + "ticketLifetime": [-1, 0, 1, week - 1, week, week + 1]},
+         lambda e: not (0 < e[O + "ticketLifetime"] <= week), "ticketLifetime within 1..7 days"),
+        ("_sanityCheckTicketSettings", {O + "max_early_data": [-1, 0, 1, 2 ** 64 - 1, 2 ** 64, 2 ** 64 + 1]},
+         lambda e: not (0 < e[O + "max_early_data"] <= 2 ** 64), "max_early_data within 1..2**64"),
+        ("_sanityCheckTicketSettings", {O + "ticket_count": [-1, 0, 1, 2 ** 16 - 1, 2 ** 16]},
+         lambda e: not (0 <= e[O + "ticket_count"] < 2 ** 16), "ticket_count within 0..2**16-1"),
+        ("_sanityCheckECDHSettings", {O + "versions": [((3, 3),), ((3, 4),), ((3, 3), (3, 4)), ((3, 1), (3, 4)),
+                                                       ((3, 1), (3, 2)), ((3, 0), (3, 3), (3, 4))],
+                                      "forbiddenGroup": [(), ("brainpoolP256r1",)]},
+         lambda e: bool(e["forbiddenGroup"]) and (3, 3) not in e[O + "versions"] and (3, 4) in e[O + "versions"],
+         "groups TLS 1.3 forbids are refused exactly when TLS 1.3 is enabled and TLS 1.2 is not"),
+        ("_sanityCheckPrimitivesNames", dict([(O + k, [(), ("x",)]) for k in
+                                              ("rsaSigHashes", "ecdsaSigHashes", "dsaSigHashes", "more_sig_schemes")]
+                                             + [(O + "maxVersion", [(3, 2), (3, 3), (3, 4)])]),
+         lambda e: not any(e[O + k] for k in ("rsaSigHashes", "ecdsaSigHashes", "dsaSigHashes", "more_sig_schemes"))
+         and e[O + "maxVersion"] >= (3, 3), "TLS 1.2+ needs at least one signature algorithm"),
+    ]
+    for fname, dom, spec, what in T:
+        fi = ctx.index.func(HS + "." + fname)
+        g = ctx.an.cfg(fi)
+        ao = lambda t, g=g: dead_edge_labels(g, t, [g.exit])
+        keys = sorted(dom)
+        bad = None
+        for combo in itertools.product(*[dom[k] for k in keys]):
+            env = dict(zip(keys, combo))
+            out, both = outcomes(g, fi.node, env, ao)
+            exp = {"raise"} if spec(env) else {"pass"}
+            if out != exp:
+                bad = (env, out, exp, both)
+                break
+        if bad:
+            env, out, exp, both = bad
+            shown = ", ".join("%s=%r" % (k.replace(O, ""), v) for k, v in sorted(env.items()) if k[:1].islower())
+            why = ("the check depends on `%s`, which is not what the domain is stated over" % norm(both[0].expr)[:80]) \
+                if both else ("validation %s for %s but must %s" % (
+                    "raises ValueError" if "raise" in out else "passes", shown,
+                    "raise ValueError" if exp == {"raise"} else "accept it"))
+            ctx.fail(R, fi.qname, what, "%s: %s" % (what, why),
+                     fi.loc(both[0].ast) if both and both[0].ast is not None else fi.loc())
+        else:
+            ctx.ok(R, "%s: %s" % (fi.short, what), fi.loc(),
+                   sample={"fields": [k for k in keys], "assignments": len(list(itertools.product(*[dom[k] for k in keys])))})
+
+
 RULES = [
+    ("C19.RANGES", "quick", rule_ranges),
+    ("C19.SELECT", "quick", rule_select),
     ("C19.OFFER", "quick", rule_offer),
     ("C19.ALIAS", "quick", rule_alias),
     ("C19.FIELDS", "quick", rule_fields),
